@@ -137,6 +137,59 @@ def render_queries(case):
     return {'user': user, 'outs': outs}
 
 
+def render_counter_doc(case):
+    """case as for render_queries (css sheet + queries on named styles).  The sheet is put in a real document; a
+    value query [False, name, v] is an element with `counter-reset: n v` whose ::before prints "[" counter(n, name) "]";
+    a marker query [True, name, v] is a display:list-item element with list-style-type: name and list-item set to v.
+    Returns the dictionary entries (parsed as render_queries does, for the model) and the printed texts as outcomes."""
+    from weasyprint import CSS, HTML
+    from weasyprint.css.counters import CounterStyle
+    from weasyprint.formatting_structure import boxes
+    cs = CounterStyle()
+    base = _ua()
+    for k, v in base.items():
+        cs[k] = v
+    CSS(string=case['css'], counter_style=cs)
+    user = [[k, dump_style(v)] for k, v in cs.items() if base.get(k) is not v]
+    rules, body = [], []
+    for i, (marker, name, value) in enumerate(case['queries']):
+        if marker:
+            rules.append('#q%d { display: list-item; list-style-type: %s; list-style-position: inside; '
+                         'counter-increment: list-item 0; counter-set: list-item %d }' % (i, name, value))
+        else:
+            rules.append('#q%d { counter-reset: n %d } #q%d::before { content: "[" counter(n, %s) "]"; white-space: pre }'
+                         % (i, value, i, name))
+        body.append('<div id="q%d"></div>' % i)
+    html = ('<style>@page { size: 30000px 100000px; margin: 0 } body { white-space: pre; font-size: 10px }\n%s\n%s</style>%s'
+            % (case['css'], '\n'.join(rules), ''.join(body)))
+    doc = HTML(string=html).render()
+    got = {}
+
+    def walk(box):
+        tag = getattr(box, 'element_tag', '') or ''
+        for kind in ('before', 'marker'):
+            if tag.endswith('::' + kind) and box.element is not None:
+                t = []
+                _texts(box, t)
+                got.setdefault((box.element.get('id'), kind), []).append(''.join(t))
+                return
+        for c in getattr(box, 'children', ()) or ():
+            walk(c)
+    for page in doc.pages:
+        walk(page._page_box)
+    outs = []
+    for i, (marker, name, value) in enumerate(case['queries']):
+        texts = got.get(('q%d' % i, 'marker' if marker else 'before'))
+        if marker:
+            outs.append(['ok', ''.join(texts or [])])          # an empty marker text generates no box
+        elif not texts:
+            outs.append(['exc', 'no ::before box'])
+        else:
+            t = ''.join(texts)
+            outs.append(['ok', t[1:-1]] if t.startswith('[') and t.endswith(']') else ['exc', 'unexpected text %r' % t])
+    return {'user': user, 'outs': outs}
+
+
 # ------------------------------------------------------------------ full renders
 
 def _texts(box, out):
